@@ -11,7 +11,7 @@ use crate::plan::Plan;
 use crate::props::c04::{build_state, Recipe, StateSpec};
 use crate::util::{Json, Rng};
 
-pub const C14_PAIRS: [&str; 6] = ["P8xP8", "T24xT24", "B1xB1", "L200xB1", "A64xP8", "B3xB1"];
+pub const C14_PAIRS: [&str; 8] = ["P8xP8", "T24xT24", "B1xB1", "L200xB1", "A64xP8", "B3xB1", "L600xB1", "P8xL600"];
 const STATES: [Recipe; 10] = [Recipe::Layout, Recipe::Layout, Recipe::Full, Recipe::Saturated, Recipe::SaturatedRandom, Recipe::SaturatedRandom, Recipe::Fresh, Recipe::Small, Recipe::Tombstoned, Recipe::History];
 /// only the entry-style operations (and a little lookup) are drawn
 const W: [u32; NOPS] = [0, 2, 0, 1, 1, 0, 0, 3, 30, 22, 0, 0, 0, 0, 0, 0, 0, 0, 0, 30, 22, 0, 0, 6, 24];
